@@ -17,3 +17,24 @@ func Calc(b []byte, k int) (int, error) {
 	}
 	return s / 2, nil
 }
+
+// Dirty stands for an allocation of uninitialised memory (dirtmake.Bytes): n bytes of a content the
+// program must not depend on (here 0xEE), capacity c; panics unless 0 <= n <= c.
+func Dirty(n, c int) []byte {
+	b := make([]byte, n, c)
+	for i := range b {
+		b[i] = 0xEE
+	}
+	return b
+}
+
+// Seed / Keyed stand for maphash: a keyed hash whose key is a field of the structure that uses it.
+type Seed struct{ K uint64 }
+
+func Keyed(seed Seed, s string) uint64 {
+	h := seed.K
+	for i := 0; i < len(s); i++ {
+		h = h*31 + uint64(s[i])
+	}
+	return h
+}
